@@ -526,7 +526,7 @@ pub fn case_strategy() -> impl Strategy<Value = RetCase> {
         })
 }
 
-pub const RULE: &str = "programs = methods whose return type is drawn from the families the macro accepts: borrowed leaves (&u32, &String, &str, &[u8]); Option<&T> / Result<&T,E>; Option / Poll wrappers around those up to depth 3; Vec<&T>, Vec<Option<&T>>; 1-4-tuples mixing owned leaves (u32, String, non-Clone, &'static str), borrowed leaves and shallow containers; all-owned composites of Option/Result/Vec/Poll/tuples up to depth 3; &self and &mut self receivers. For each type a value with generated variants (None/Some, Ok/Err, Ready/Pending, vector lengths 0..4) and pairwise distinct leaf values is configured with returns() through next_call (single use), each_call (3 calls, earlier results read after later calls) and some_call(..).n_times(2). Non-trivial = >= 2 container levels or a tuple mixing owned and borrowed leaves; distinct = distinct (type, value). racing-repeat-use-returns = every schedule of 2 threads x 1-2 calls and 3 x 1 requesting a value with an owned String leaf (alone, in (String,&u32), as Err of Result<&u32,String>, inside Option<Vec<Result<..>>>) configured through each_call().returns / .n_times(N) / .at_least_times(1), through clones or one shared handle: every call observes the configured structure";
+pub const RULE: &str = "programs = methods whose return type is drawn from the families the macro accepts: borrowed leaves (&u32, &String, &str, &[u8]); Option<&T> / Result<&T,E>; Option / Poll wrappers around those up to depth 3; Vec<&T>, Vec<Option<&T>>; 1-4-tuples mixing owned leaves (u32, String, non-Clone, &'static str), borrowed leaves and shallow containers; all-owned composites of Option/Result/Vec/Poll/tuples up to depth 3; &self and &mut self receivers. For each type a value with generated variants (None/Some, Ok/Err, Ready/Pending, vector lengths 0..4) and pairwise distinct leaf values is configured with returns() through next_call (single use), each_call (3 calls, earlier results read after later calls) and some_call(..).n_times(2). Non-trivial = >= 2 container levels or a tuple mixing owned and borrowed leaves; distinct = distinct (type, value). racing-repeat-use-returns = every schedule of 2 threads x 1-2 calls and 3 x 1 requesting a value with an owned String leaf (alone, in (String,&u32), as Err of Result<&u32,String>, inside Option<Vec<Result<..>>>) configured through each_call().returns / .n_times(N) / .at_least_times(1), through clones or one shared handle: every call observes the configured structure. racing-single-use-leaves = every schedule of two threads requesting one single-use composite whose owned leaves sit in several cells ((Token,&T), (&T,Token,Token), Result<&T,Token>, ...): exactly one request observes the complete configured value, the other is refused";
 
 fn spec<'a>() -> Spec<'a, RetCase> {
     Spec {
@@ -575,15 +575,18 @@ pub fn run(ctx: &Ctx) -> Verdict {
     // owned leaves of composites configured for repeated use, requested by racing threads: every schedule of 2-3
     // threads (run-time sub-check hosted by the rt engine, C10's scheduler)
     v.subs.push(vcore::sub_report_from("rt", &["--sub-json", "C17", ctx.tier.name()], "racing-repeat-use-returns"));
+    // ... and single-use composites with several owned leaves: exactly one of two racing requests observes the
+    // complete configured value (the racing-leaves check of C12, same scheduler)
+    v.subs.push(vcore::sub_report_from("rt", &["--sub-json", "C17-leaves", ctx.tier.name()], "racing-single-use-leaves"));
     v
 }
 
 pub fn replay(_sub: &str, case: Value) -> Result<(), String> {
-    if _sub == "racing-repeat-use-returns" {
+    if _sub == "racing-repeat-use-returns" || _sub == "racing-single-use-leaves" {
         // hosted by the run-time engine (no compilation needed)
         let exe = std::env::current_exe().map_err(|e| format!("HARNESS: {e}"))?.with_file_name("rt");
         let out = std::process::Command::new(&exe)
-            .args(["--replay-case", "C17", "racing-repeat-use-returns", &case.to_string()])
+            .args(["--replay-case", "C17", _sub, &case.to_string()])
             .output()
             .map_err(|e| format!("HARNESS: cannot run {}: {e}", exe.display()))?;
         let text = String::from_utf8_lossy(&out.stdout).trim().to_string();
